@@ -11,6 +11,7 @@ through it) and EVERY UCB index `val` (mean + exploration bonus), so no property
 import CobaVerif.Lemmas.C16
 import CobaVerif.Lemmas.C16Real
 import CobaVerif.Lemmas.C16Gen
+import CobaVerif.Lemmas.C16Safe
 
 namespace Coba.C16
 open Coba.C05 (next)
@@ -388,5 +389,57 @@ theorem predict_positional_with_equal_members (val : Act → Rat) (L : Learner) 
 
 /-- the hypotheses are satisfiable by a list with equal members: `FixedLearner([0, 1/4, 3/4])` offered `[7, 3, 7]` -/
 example : (Kind.fixed [0, 1/4, 3/4]).positional = true ∧ ([7, 3, 7] : List Act) ≠ [] ∧ ¬ ([7, 3, 7] : List Act).Nodup := by decide
+
+/-! ## Phase 4 (continued) -/
+
+/-- BanditUCB over a list with EQUAL members (no `Nodup`): the pmf is always defined (no KeyError / log 0 / division by 0), has one entry per
+position, every entry is in [0,1] and the total is ≥ 1 — so `choicew` can always draw and reports a positive weight — and it is a proper
+distribution (`Valid`, sum = 1) as soon as every offered action has been observed. PARTIAL with respect to validity: while an offered action is
+unobserved AND occurs twice the total exceeds 1 (`ucb_equal_members_counterexample`), which is why the property speaks of action SETS. -/
+theorem ucb_pmf_equal_members_partial (val : Act → Rat) (st : Ucb) (actions : List Act) (hinv : st.Inv) (hne : actions ≠ []) :
+    ∃ pmf, st.pmf val actions = .ok pmf ∧ Drawable pmf actions.length ∧
+      ((∀ a ∈ actions, dhas st.m a = true) → Valid pmf actions.length) :=
+  Ucb.pmf_equal_members' val st actions hinv hne
+
+/-- `Nodup` is necessary for BanditUCB: a fresh learner offered `[a, a, b]` scores `[1/2, 1/2, 1/2]` (`len(set(...))` counts `a` once);
+replayed on the real code by the corpus witness `ucb_equal_members` -/
+theorem ucb_equal_members_counterexample (val : Act → Rat) : Ucb.pmf val {} [0, 0, 1] = .ok [1/2, 1/2, 1/2] :=
+  ucb_equal_members_witness val
+
+/-- **SafeLearner around a learner of this property** (Corral wraps every base learner in one; an experiment wraps every learner), composed
+from C15's model of `SafeLearner.predict` (`pred_format`, `_parse_pred`; Model/C15 unchanged): a learner that answers an unbatched call with
+`(the pick-th offered object, probability)` — with kwargs (`kw = true`: Corral's `{'info': …}`) or without — gets back from the SafeLearner
+exactly that object, that probability and that kwargs object, on the first call (format detection) and on every later one (`Inv`), for the
+pinned and the repaired SafeLearner (`fx`). So "SafeLearner is the identity on (action, probability)" is a theorem, no longer an assumption. -/
+theorem safe_wrapper_identity (fx : Coba.C15.Fixes) (kw : Bool) (pol : Coba.C15.Policy) (st : Coba.C15.State) (c : Coba.C15.PyVal)
+    (as : List Coba.C15.PyVal) (hinv : Coba.C15.Inv (safeSpec kw) false st)
+    (hpick : (pol c as).pick < as.length) (hobj : as.all (fun a => !Coba.C15.isLrn a) = true) (hp : (pol c as).p.isDict = false) :
+    Coba.C15.predictCore fx (Coba.C15.scripted (safeSpec kw) pol) st (.single c as) =
+      .ok (⟨as.getD (pol c as).pick .none, (pol c as).p, if kw then Coba.C15.kwDict (pol c as) else Coba.C15.emptyKw⟩,
+           Coba.C15.stAfter (safeSpec kw) false st st.rng) :=
+  safe_wrapper_identity' fx kw pol st c as hinv hpick hobj hp
+
+/-- the hypotheses are satisfiable: a fresh SafeLearner, two offered strings, the learner picks the second with probability 1/4 -/
+example : Coba.C15.Inv (safeSpec false) false (Coba.C15.initState 1) ∧
+    ([Coba.C15.PyVal.str (.ext 0) "a", .str (.ext 1) "b"].all (fun a => !Coba.C15.isLrn a)) = true := by
+  exact ⟨Or.inl ⟨rfl, rfl⟩, by decide⟩
+
+/-- `accepts` is no extra hypothesis at the depth the property speaks about ("Corral over any of them"): for a Corral (under any Misguided
+wrappers) over plain learners it is EXACTLY the property's own precondition — the reward Corral sees is in [0,1] and the probability is not 0.
+(Deeper nestings keep the hypothesis: `corral_importance_feedback_unbounded`.) -/
+theorem corral_over_plain_accepts_iff (fl : Rat → Rat) (s : (corralOver fl (leafBase fl)).σ) (a : Act) (r p : Rat) :
+    (corralLaws fl (leafLaws fl)).accepts s a r p ↔ (0 ≤ misguide fl s.mis r ∧ misguide fl s.mis r ≤ 1 ∧ p ≠ 0) :=
+  corral_over_plain_accepts_iff' fl s a r p
+
+/-- translator obligations, re-extracted with `ast` from coba/safety.py and coba/learners/bandit.py on every run
+(`Generated/C16BanditConsts.lean`): SafeLearner's `a in [0,1]` list is what C15's `makeSafe` rewrites; `possible_pmf`'s `abs_tol` is the
+model's 1/1000; BanditEpsilon's default ε lies in [0,1] (hypothesis of `eps_pmf_dist`); UCB's variance cap is 1/4 -/
+theorem bandit_consts_match :
+    (∀ (k : Nat) (i : Int), Coba.C15.makeSafe k (.int i) =
+        if i ∈ Coba.Generated.C16.safeInts then Coba.C15.PyVal.flt (.safe k) (i : Rat) else Coba.C15.PyVal.int i) ∧
+    ((Coba.Generated.C16.possiblePmfTolNum : Rat) / Coba.Generated.C16.possiblePmfTolDen = 1 / 1000) ∧
+    ((0 : Rat) ≤ (Coba.Generated.C16.epsDefaultNum : Rat) / Coba.Generated.C16.epsDefaultDen ∧
+        (Coba.Generated.C16.epsDefaultNum : Rat) / Coba.Generated.C16.epsDefaultDen ≤ 1) ∧
+    ((Coba.Generated.C16.ucbVarCapNum : Rat) / Coba.Generated.C16.ucbVarCapDen = 1 / 4) := bandit_consts_match'
 
 end Coba.C16
